@@ -189,14 +189,17 @@ def run(ctx):
                 raise MachineryError("vacuous: no program with shape tag %s" % t)
         # binding self-test: a corrupted expected attribute value must be reported on both observation routes
         import copy
-        probe = next(it for it in items if it["pts"] and "affine" in it["tags"] and not judge(it)[0])
-        bad = copy.deepcopy(probe)
-        ai = bad["attrs"].index("nominal")
-        for pt in bad["pts"]:
-            pt["expect"][-1][ai] = [[7, 1] for _ in pt["expect"][-1][ai]]
-        obs = {r["observable"] for r in judge(bad)[0]}
-        if not {"variable-attribute", "metadata-function"} <= obs:
-            raise MachineryError("binding self-test failed: corrupted expected attribute accepted (%s)" % obs)
+        probe = next((it for it in items if it["pts"] and "affine" in it["tags"] and not judge(it)[0]), None)
+        if probe is None and not ctx.violations:
+            raise MachineryError("binding self-test impossible: no program of the family conforms")
+        if probe is not None:      # (on a tree with violations everywhere there may be nothing clean to corrupt)
+            bad = copy.deepcopy(probe)
+            ai = bad["attrs"].index("nominal")
+            for pt in bad["pts"]:
+                pt["expect"][-1][ai] = [[7, 1] for _ in pt["expect"][-1][ai]]
+            obs = {r["observable"] for r in judge(bad)[0]}
+            if not {"variable-attribute", "metadata-function"} <= obs:
+                raise MachineryError("binding self-test failed: corrupted expected attribute accepted (%s)" % obs)
         for it in (items[0], items[len(items) // 2], items[-1]):
             ctx.sample({"modelica": ir_eval.render(it["prog"]), "model_is_affine": it["affine"],
                         "expected_at_first_point": dict(zip(it["names"], it["pts"][0]["expect"])) if it["pts"] else None,
